@@ -307,7 +307,34 @@ func sortedStrings(a []string) []string {
 	return sortedKeys(m)
 }
 
+// c17TypeGainsFields: a struct type redeclared with more fields (a reload of changed source): instances created
+// afterwards have the fields in declaration order, every time
+func (c *Ctx) c17TypeGainsFields() {
+	for it := 0; it < 8; it++ {
+		var out bytes.Buffer
+		vm := goat.New(goat.WithStdout(&out))
+		var err error
+		for _, src := range []string{"type G struct {\n\tA int\n}\ng0 := &G{A: 1}",
+			"type G struct {\n\tA int\n\tB int\n\tC string\n\tD float64\n\tE bool\n\tF []int\n}\nfunc (g *G) Sum() int {\n\treturn g.A + g.B\n}",
+			"g1 := &G{A: 2, B: 3, C: \"c\", D: 1.5, E: true, F: []int{4}}\nprintln(g1, g1.Sum(), g0.A, g0.Sum())"} {
+			if e := try(func() { _, err = vm.Eval(fstest.MapFS{}, "main", src) }); e != nil {
+				err = e
+			}
+			if err != nil {
+				break
+			}
+		}
+		want := "&{A:2 B:3 C:c D:1.5 E:true F:[4]} 5 1 1"
+		c.Rep.Oracle["type-gains-fields"]++
+		if got := strings.TrimSpace(out.String()); err != nil || got != want {
+			c.Rep.Violate(Violation{Kind: "oracle", Cut: "type-gains-fields", Input: "type G struct{A int} redeclared with fields A..F, then a fresh instance printed", Impl: fmt.Sprintf("%s err=%v", got, err), Oracle: want})
+			return
+		}
+	}
+}
+
 func runC17(c *Ctx) error {
+	c.c17TypeGainsFields()
 	c.Rep.Rule = "reload: one VM per history; 2..5 versions of a package with 1..5 functions and 1..3 methods whose bodies change, stay the same, appear in a later version or are left out of one; 8..37 steps of Load(version k) / Eval with an explicit import (reload of the current version, also of unchanged source) / capture of a function in a variable, a struct field, a slice element, of a bound method and of a bound method inside a struct field / new instance / call of everything captured and of every function and method by name / creation and formatting of fresh instances of every struct type by the current code / Bump, SetMode, instance Inc / read of the package variables (two without initialiser, two with); distinct = distinct history; non-trivial = at least two loads and one capture"
 	n := 60
 	if c.Thorough() {
